@@ -11,7 +11,7 @@ for s in seeds:
     prop = meta.get('confirmed', {}).get('check') or s.split('-')[0]
     try:
         subprocess.run('git -C /repo apply %s/patch.diff' % d, shell=True, check=True)
-        r = subprocess.run('cd /verif && bin/check %s --tier quick' % prop, shell=True, capture_output=True, text=True)
+        r = subprocess.run('cd /verif && VERIF_EVIDENCE_DIR=/tmp/verif_seed_evidence bin/check %s --tier quick' % prop, shell=True, capture_output=True, text=True)
     finally:
         subprocess.run('git -C /repo checkout -- .', shell=True)
     tail = [l for l in r.stdout.strip().splitlines() if l.startswith(('VIOLATION', 'FAIL', 'PASS', 'KNOWN'))][-2:]
